@@ -1,9 +1,1042 @@
-//! C11 — (stub; not built yet)
+//! C11 — MultiJagged yields a balanced jagged hierarchy with the requested part count.
+//!
+//! ops (weights: non-negative integers used as f64; coordinates: integers used as f64):
+//!   `mj <D> <threads> <parts> <maxiter> <n> <w…> <coords point-major>`
+//!        out: `ok ids <canonically renamed ids>`  (coordinates pairwise distinct on every axis)
+//!             `ok loads <sorted part loads>`      (coordinate ties, uniform weights)
+//!             `ok ties`                           (coordinate ties, other weights: oracle only)
+//!   `split <threads> <den> <k> <m…> <nw> <w…> <np> <perm…>`   hook compute_split_positions,
+//!        modifiers m_i/den;  out: `ok pos <positions>`
+//!   `scheme <parts> <maxiter>`                                hook partition_scheme; out: `ok <tree>`
+//!   `splitmany <len> <k> <p…>`                                hook split_at_mut_many_lens; out: `ok lens <…>`
+//!   `axissort <D> <coord> <threads> <n> <coords>`             hook axis_sort; out: `ok perm <…>` | `ok ties`
+//! any panic: `panic <file:line: message>`.
 
 use crate::common::*;
+use coupe::Partition as _;
 
-pub fn generate(_ctx: &mut Ctx) {}
+// ------------------------------------------------------------------ helpers
+
+fn nums<T: std::str::FromStr>(it: &mut std::str::SplitWhitespace, n: usize) -> Option<Vec<T>> {
+    let mut v = Vec::with_capacity(n.min(1 << 20));
+    for _ in 0..n {
+        v.push(it.next()?.parse().ok()?);
+    }
+    Some(v)
+}
+
+fn tagged<T: std::fmt::Display>(tag: &str, xs: &[T]) -> String {
+    let mut s = String::from(tag);
+    for x in xs {
+        s.push(' ');
+        s.push_str(&x.to_string());
+    }
+    s
+}
+
+fn pairwise_distinct(mut v: Vec<i64>) -> bool {
+    v.sort_unstable();
+    v.windows(2).all(|w| w[0] != w[1])
+}
+
+fn canon(ids: &[usize]) -> Vec<usize> {
+    let mut map = std::collections::HashMap::new();
+    ids.iter()
+        .map(|i| {
+            let next = map.len();
+            *map.entry(*i).or_insert(next)
+        })
+        .collect()
+}
+
+/// The scheme as printed by the hook, reduced to what the oracle needs.
+#[derive(Debug, Clone)]
+struct Node {
+    num_splits: usize,
+    num_modifiers: usize,
+    /// `None` = `next: None`
+    children: Option<Vec<Node>>,
+}
+
+impl Node {
+    fn is_leaf(&self) -> bool {
+        self.num_splits == 0
+    }
+    fn leaves(&self) -> usize {
+        if self.is_leaf() {
+            1
+        } else {
+            self.children.as_ref().map_or(0, |c| c.iter().map(|x| x.leaves()).sum())
+        }
+    }
+    fn depth(&self) -> usize {
+        if self.is_leaf() {
+            0
+        } else {
+            1 + self.children.as_ref().map_or(0, |c| c.iter().map(|x| x.depth()).max().unwrap_or(0))
+        }
+    }
+    fn shape_ok(&self) -> bool {
+        if self.num_modifiers != self.num_splits + 1 {
+            return false;
+        }
+        if self.is_leaf() {
+            return true;
+        }
+        match &self.children {
+            None => false,
+            Some(c) => c.len() == self.num_splits + 1 && c.iter().all(|x| x.shape_ok()),
+        }
+    }
+}
+
+fn parse_scheme(s: &str) -> Option<Node> {
+    fn node(b: &[u8], i: &mut usize) -> Option<Node> {
+        if b.get(*i) != Some(&b'(') {
+            return None;
+        }
+        *i += 1;
+        let st = *i;
+        while b.get(*i)?.is_ascii_digit() {
+            *i += 1;
+        }
+        let num_splits: usize = std::str::from_utf8(&b[st..*i]).ok()?.parse().ok()?;
+        if b.get(*i) != Some(&b' ') || b.get(*i + 1) != Some(&b'[') {
+            return None;
+        }
+        *i += 2;
+        let st = *i;
+        while *b.get(*i)? != b']' {
+            *i += 1;
+        }
+        let inner = std::str::from_utf8(&b[st..*i]).ok()?;
+        let num_modifiers = inner.split_whitespace().count();
+        *i += 1;
+        let mut children = Some(vec![]);
+        loop {
+            match b.get(*i)? {
+                b')' => {
+                    *i += 1;
+                    break;
+                }
+                b' ' => {
+                    *i += 1;
+                    if b.get(*i) == Some(&b'-') {
+                        *i += 1;
+                        children = None;
+                    } else {
+                        let c = node(b, i)?;
+                        children.as_mut()?.push(c);
+                    }
+                }
+                _ => return None,
+            }
+        }
+        Some(Node { num_splits, num_modifiers, children })
+    }
+    let b = s.as_bytes();
+    let mut i = 0;
+    let n = node(b, &mut i)?;
+    if i == b.len() {
+        Some(n)
+    } else {
+        None
+    }
+}
+
+// ------------------------------------------------------------------ jagged-hierarchy oracle
+
+struct Jag<'a> {
+    dim: usize,
+    coords: &'a [i64],
+    steps: u64,
+    budget: u64,
+    ambiguous: bool,
+}
+
+#[derive(Clone)]
+struct Part {
+    points: Vec<usize>,
+}
+
+impl<'a> Jag<'a> {
+    fn c(&self, p: usize, axis: usize) -> i64 {
+        self.coords[p * self.dim + axis]
+    }
+
+    /// Is there an assignment of the parts to the leaves below `node` that makes the
+    /// parts a jagged hierarchy (slabs ordered along `axis`, then the next axis, …)?
+    /// `None` = step budget exhausted.
+    fn check(&mut self, node: &Node, axis: usize, parts: &[Part]) -> Option<bool> {
+        self.steps += 1;
+        if self.steps > self.budget {
+            return None;
+        }
+        if parts.is_empty() {
+            return Some(true);
+        }
+        if node.is_leaf() {
+            return Some(parts.len() <= 1);
+        }
+        let Some(children) = node.children.as_ref() else {
+            return Some(false);
+        };
+        if parts.len() > node.leaves() {
+            return Some(false);
+        }
+        // order the parts along the axis
+        let mut iv: Vec<(i64, i64, usize)> = parts
+            .iter()
+            .enumerate()
+            .map(|(k, p)| {
+                let lo = p.points.iter().map(|&q| self.c(q, axis)).min().unwrap();
+                let hi = p.points.iter().map(|&q| self.c(q, axis)).max().unwrap();
+                (lo, hi, k)
+            })
+            .collect();
+        iv.sort();
+        for w in iv.windows(2) {
+            if w[0].0 == w[0].1 && w[1].0 == w[1].1 && w[0].0 == w[1].0 {
+                // two parts lying entirely on the same coordinate: their order is free
+                self.ambiguous = true;
+            }
+        }
+        let sorted: Vec<Part> = iv.iter().map(|x| parts[x.2].clone()).collect();
+        let np = sorted.len();
+        // admissible cuts
+        let mut prefmax = vec![i64::MIN; np + 1];
+        for k in 0..np {
+            prefmax[k + 1] = prefmax[k].max(iv[k].1);
+        }
+        let mut sufmin = vec![i64::MAX; np + 1];
+        for k in (0..np).rev() {
+            sufmin[k] = sufmin[k + 1].min(iv[k].0);
+        }
+        let cut_ok: Vec<bool> = (0..=np).map(|k| k == 0 || k == np || prefmax[k] <= sufmin[k]).collect();
+        let r = children.len();
+        let next_axis = (axis + 1) % self.dim;
+        // feasible[j][k]: children j.. can take sorted[k..]
+        let mut memo: Vec<Vec<Option<bool>>> = vec![vec![None; np + 1]; r + 1];
+        self.feasible(children, next_axis, &sorted, &cut_ok, 0, 0, &mut memo)
+    }
+
+    #[allow(clippy::too_many_arguments)]
+    fn feasible(
+        &mut self,
+        children: &[Node],
+        next_axis: usize,
+        sorted: &[Part],
+        cut_ok: &[bool],
+        j: usize,
+        k: usize,
+        memo: &mut Vec<Vec<Option<bool>>>,
+    ) -> Option<bool> {
+        let np = sorted.len();
+        if j == children.len() {
+            return Some(k == np);
+        }
+        if let Some(v) = memo[j][k] {
+            return Some(v);
+        }
+        let cap = children[j].leaves();
+        let mut res = false;
+        let mut e = k;
+        while e <= np && e - k <= cap {
+            if cut_ok[e] {
+                let rest = self.feasible(children, next_axis, sorted, cut_ok, j + 1, e, memo)?;
+                if rest && self.check(&children[j], next_axis, &sorted[k..e])? {
+                    res = true;
+                    break;
+                }
+            }
+            e += 1;
+        }
+        memo[j][k] = Some(res);
+        Some(res)
+    }
+}
+
+// ------------------------------------------------------------------ op runners
+
+fn run_mj_impl<const D: usize>(
+    threads: usize,
+    parts: usize,
+    maxiter: usize,
+    ws: &[u64],
+    coords: &[i64],
+) -> Caught<Vec<usize>> {
+    let n = ws.len();
+    let points: Vec<coupe::PointND<D>> =
+        (0..n).map(|p| coupe::PointND::<D>::from_fn(|i, _| coords[p * D + i] as f64)).collect();
+    let weights: Vec<f64> = ws.iter().map(|&w| w as f64).collect();
+    catch(|| {
+        with_pool(threads, || {
+            let mut ids = vec![usize::MAX; n];
+            coupe::MultiJagged { part_count: parts, max_iter: maxiter }
+                .partition(&mut ids, (&points[..], &weights[..]))
+                .unwrap();
+            ids
+        })
+    })
+}
+
+fn op_mj(ctx: &mut Ctx, op: &str, it: &mut std::str::SplitWhitespace) -> Option<()> {
+    let dim: usize = it.next()?.parse().ok()?;
+    let threads: usize = it.next()?.parse().ok()?;
+    let parts: usize = it.next()?.parse().ok()?;
+    let maxiter: usize = it.next()?.parse().ok()?;
+    let n: usize = it.next()?.parse().ok()?;
+    if !(dim == 2 || dim == 3) || threads == 0 || threads > 64 {
+        return None;
+    }
+    let ws: Vec<u64> = nums(it, n)?;
+    let coords: Vec<i64> = nums(it, n * dim)?;
+    if it.next().is_some() {
+        return None;
+    }
+    let distinct = (0..dim).all(|c| pairwise_distinct((0..n).map(|p| coords[p * dim + c]).collect()));
+    let uniform = ws.windows(2).all(|w| w[0] == w[1]);
+    let positive = ws.iter().all(|&w| w > 0);
+    let in_quant = positive && n >= 1 && (1..=n).contains(&parts) && (1..=4).contains(&maxiter);
+    ctx.count(if in_quant { "mj_in_quantifier" } else { "mj_outside_quantifier" });
+    ctx.count(if distinct {
+        "mj_cmp_exact_ids"
+    } else if uniform {
+        "mj_cmp_tie_loads"
+    } else {
+        "mj_cmp_tie_oracle_only"
+    });
+    ctx.count(&format!("mj_threads_{}", threads));
+    ctx.count(&format!("mj_dim_{}", dim));
+    ctx.count(&format!("mj_maxiter_{}", maxiter.min(7)));
+    ctx.count(match n {
+        0 => "mj_n_0",
+        1..=3 => "mj_n_1-3",
+        4..=16 => "mj_n_4-16",
+        17..=80 => "mj_n_17-80",
+        _ => "mj_n_81-400",
+    });
+    let res = if dim == 2 {
+        run_mj_impl::<2>(threads, parts, maxiter, &ws, &coords)
+    } else {
+        run_mj_impl::<3>(threads, parts, maxiter, &ws, &coords)
+    };
+    let nontrivial = in_quant && n >= 2 && parts >= 2;
+    let mut verdicts: Vec<(&str, String)> = vec![];
+    let out = match res {
+        Caught::Ok(ids) => {
+            // ---- oracle 1: ids
+            let mut ids_ok = true;
+            if ids.iter().any(|&i| i == usize::MAX) {
+                verdicts.push(("mj-unwritten", "an element kept its initial id".into()));
+                ids_ok = false;
+            } else if let Some(&bad) = ids.iter().find(|&&i| i >= parts) {
+                verdicts.push(("mj-id-out-of-range", format!("id {} with part_count {}", bad, parts)));
+                ids_ok = false;
+            }
+            if ids_ok {
+                // ---- oracle 2: jagged hierarchy, guided by the real scheme
+                let scheme_txt = catch(|| coupe::verif::multi_jagged::partition_scheme(parts, maxiter));
+                if let Caught::Ok(txt) = scheme_txt {
+                    if let Some(root) = parse_scheme(&txt) {
+                        let mut groups: std::collections::BTreeMap<usize, Vec<usize>> = Default::default();
+                        for (p, &i) in ids.iter().enumerate() {
+                            groups.entry(i).or_default().push(p);
+                        }
+                        let partsv: Vec<Part> = groups.into_values().map(|points| Part { points }).collect();
+                        let mut j = Jag { dim, coords: &coords, steps: 0, budget: 3_000_000, ambiguous: false };
+                        match j.check(&root, 0, &partsv) {
+                            Some(true) => ctx.count("mj_jagged_confirmed"),
+                            Some(false) if j.ambiguous => ctx.count("mj_jagged_inconclusive_ties"),
+                            Some(false) => verdicts.push((
+                                "mj-not-jagged",
+                                format!("no assignment of the {} parts to the scheme's leaves is a jagged hierarchy", partsv.len()),
+                            )),
+                            None => ctx.count("mj_jagged_inconclusive_budget"),
+                        }
+                    } else {
+                        verdicts.push(("scheme-unparsable", txt.chars().take(200).collect()));
+                    }
+                }
+                // ---- oracle 3: balance (positive weights)
+                if positive && n >= 1 && parts >= 1 {
+                    let total: i128 = ws.iter().map(|&w| w as i128).sum();
+                    let wmax: i128 = *ws.iter().max().unwrap() as i128;
+                    let mut loads = vec![0i128; parts];
+                    for (p, &i) in ids.iter().enumerate() {
+                        loads[i] += ws[p] as i128;
+                    }
+                    let bound = parts as i128 * (maxiter as i128 + 1) * wmax;
+                    let mut worst = 0i128;
+                    for (k, &l) in loads.iter().enumerate() {
+                        let dev = (parts as i128 * l - total).abs();
+                        worst = worst.max(dev);
+                        if dev >= bound {
+                            verdicts.push((
+                                "mj-imbalance",
+                                format!(
+                                    "part {} load {}: |{}*{} - {}| = {} >= {}*({}+1)*{}",
+                                    k, l, parts, l, total, dev, parts, maxiter, wmax
+                                ),
+                            ));
+                            break;
+                        }
+                    }
+                    if in_quant {
+                        // how much of the bound is used (in units of parts*wmax), for the evidence
+                        let used = worst / (parts as i128 * wmax);
+                        ctx.count(&format!("mj_balance_dev_units_{}", used.min(9)));
+                    }
+                    ctx.count("mj_balance_checked");
+                }
+            }
+            if distinct {
+                tagged("ok ids", &canon(&ids))
+            } else if uniform {
+                let mut loads = vec![0u64; parts.min(1 << 24)];
+                for (p, &i) in ids.iter().enumerate() {
+                    if i < loads.len() {
+                        loads[i] += ws[p];
+                    }
+                }
+                loads.sort_unstable();
+                tagged("ok loads", &loads)
+            } else {
+                "ok ties".to_string()
+            }
+        }
+        Caught::Panic(m) => {
+            if parts == 0 {
+                ctx.count("mj_expected_panic_parts0");
+            } else {
+                verdicts.push(("panic", format!("{} [{}]", m, panic_sig(&m))));
+            }
+            format!("panic {}", m)
+        }
+        Caught::Hang => {
+            verdicts.push(("hang", "watchdog".into()));
+            "hang".into()
+        }
+    };
+    let idx = ctx.record(op.to_string(), out, nontrivial);
+    for (sig, what) in verdicts {
+        ctx.fail(idx, sig, what);
+    }
+    Some(())
+}
+
+fn op_split(ctx: &mut Ctx, op: &str, it: &mut std::str::SplitWhitespace) -> Option<()> {
+    let threads: usize = it.next()?.parse().ok()?;
+    let den: u64 = it.next()?.parse().ok()?;
+    let k: usize = it.next()?.parse().ok()?;
+    let mods: Vec<u64> = nums(it, k)?;
+    let nw: usize = it.next()?.parse().ok()?;
+    let ws: Vec<u64> = nums(it, nw)?;
+    let np: usize = it.next()?.parse().ok()?;
+    let perm: Vec<usize> = nums(it, np)?;
+    if it.next().is_some() || den == 0 || threads == 0 || threads > 64 {
+        return None;
+    }
+    let weights: Vec<f64> = ws.iter().map(|&w| w as f64).collect();
+    let modifiers: Vec<f64> = mods.iter().map(|&m| m as f64 / den as f64).collect();
+    let wellformed = k >= 1 && perm.iter().all(|&i| i < nw);
+    ctx.count(if wellformed { "split_wellformed" } else { "split_malformed" });
+    let res = catch(|| {
+        with_pool(threads, || coupe::verif::multi_jagged::compute_split_positions(&weights, &perm, &modifiers))
+    });
+    let mut verdicts: Vec<(&str, String)> = vec![];
+    let out = match res {
+        Caught::Ok(pos) => {
+            if wellformed {
+                if pos.len() != k - 1 {
+                    verdicts.push(("split-count", format!("{} positions for {} modifiers", pos.len(), k)));
+                }
+                if pos.windows(2).any(|w| w[0] > w[1]) {
+                    verdicts.push(("split-not-monotone", format!("{:?}", pos)));
+                }
+                if pos.iter().any(|&p| p > np) {
+                    verdicts.push(("split-beyond-len", format!("{:?} with len {}", pos, np)));
+                }
+                if pos.iter().any(|&p| p == np) {
+                    ctx.count("split_position_at_end");
+                }
+                if pos.windows(2).any(|w| w[0] == w[1]) {
+                    ctx.count("split_empty_slab");
+                }
+            }
+            tagged("ok pos", &pos)
+        }
+        Caught::Panic(m) => {
+            if wellformed {
+                verdicts.push(("panic", format!("{} [{}]", m, panic_sig(&m))));
+            }
+            format!("panic {}", m)
+        }
+        Caught::Hang => "hang".into(),
+    };
+    let idx = ctx.record(op.to_string(), out, wellformed && np >= 2 && k >= 2);
+    for (sig, what) in verdicts {
+        ctx.fail(idx, sig, what);
+    }
+    Some(())
+}
+
+fn op_scheme(ctx: &mut Ctx, op: &str, it: &mut std::str::SplitWhitespace) -> Option<()> {
+    let parts: usize = it.next()?.parse().ok()?;
+    let maxiter: usize = it.next()?.parse().ok()?;
+    if it.next().is_some() {
+        return None;
+    }
+    // (parts > 1, max_iter = 0) asks for a usize::MAX-element Vec: not exercised
+    if maxiter == 0 && parts > 1 {
+        return None;
+    }
+    let res = catch(|| coupe::verif::multi_jagged::partition_scheme(parts, maxiter));
+    let mut verdicts: Vec<(&str, String)> = vec![];
+    let out = match res {
+        Caught::Ok(txt) => {
+            match parse_scheme(&txt) {
+                None => verdicts.push(("scheme-unparsable", txt.chars().take(200).collect())),
+                Some(root) => {
+                    if root.leaves() != parts {
+                        verdicts.push(("scheme-leaves", format!("{} leaves for {} parts", root.leaves(), parts)));
+                    }
+                    if root.depth() > maxiter {
+                        verdicts.push(("scheme-depth", format!("depth {} > max_iter {}", root.depth(), maxiter)));
+                    }
+                    if !root.shape_ok() {
+                        verdicts.push(("scheme-shape", "child or modifier count differs from num_splits+1".into()));
+                    }
+                    ctx.count(&format!("scheme_depth_{}", root.depth()));
+                }
+            }
+            format!("ok {}", txt)
+        }
+        Caught::Panic(m) => {
+            if parts == 0 {
+                ctx.count("scheme_expected_panic_parts0");
+            } else {
+                verdicts.push(("panic", format!("{} [{}]", m, panic_sig(&m))));
+            }
+            format!("panic {}", m)
+        }
+        Caught::Hang => "hang".into(),
+    };
+    let idx = ctx.record(op.to_string(), out, parts >= 2 && maxiter >= 1);
+    for (sig, what) in verdicts {
+        ctx.fail(idx, sig, what);
+    }
+    Some(())
+}
+
+fn op_splitmany(ctx: &mut Ctx, op: &str, it: &mut std::str::SplitWhitespace) -> Option<()> {
+    let len: usize = it.next()?.parse().ok()?;
+    let k: usize = it.next()?.parse().ok()?;
+    let pos: Vec<usize> = nums(it, k)?;
+    if it.next().is_some() || len > 1 << 24 {
+        return None;
+    }
+    let wellformed = pos.windows(2).all(|w| w[0] <= w[1]) && pos.iter().all(|&p| p <= len);
+    ctx.count(if wellformed { "splitmany_wellformed" } else { "splitmany_malformed" });
+    let res = catch(|| coupe::verif::multi_jagged::split_at_mut_many_lens(len, &pos));
+    let mut verdicts: Vec<(&str, String)> = vec![];
+    let out = match res {
+        Caught::Ok(lens) => {
+            if wellformed {
+                let mut expect = vec![];
+                let mut prev = 0;
+                for &p in &pos {
+                    expect.push(p - prev);
+                    prev = p;
+                }
+                expect.push(len - prev);
+                if lens != expect {
+                    verdicts.push(("splitmany-lens", format!("{:?} instead of {:?}", lens, expect)));
+                }
+            }
+            tagged("ok lens", &lens)
+        }
+        Caught::Panic(m) => {
+            if wellformed {
+                verdicts.push(("panic", format!("{} [{}]", m, panic_sig(&m))));
+            }
+            format!("panic {}", m)
+        }
+        Caught::Hang => "hang".into(),
+    };
+    let idx = ctx.record(op.to_string(), out, wellformed && k >= 1);
+    for (sig, what) in verdicts {
+        ctx.fail(idx, sig, what);
+    }
+    Some(())
+}
+
+fn run_axissort<const D: usize>(threads: usize, coord: usize, n: usize, coords: &[i64]) -> Caught<Vec<usize>> {
+    let points: Vec<coupe::PointND<D>> =
+        (0..n).map(|p| coupe::PointND::<D>::from_fn(|i, _| coords[p * D + i] as f64)).collect();
+    catch(|| {
+        with_pool(threads, || {
+            let mut perm: Vec<usize> = (0..n).collect();
+            coupe::verif::rcb::axis_sort::<D>(&points, &mut perm, coord);
+            perm
+        })
+    })
+}
+
+fn op_axissort(ctx: &mut Ctx, op: &str, it: &mut std::str::SplitWhitespace) -> Option<()> {
+    let dim: usize = it.next()?.parse().ok()?;
+    let coord: usize = it.next()?.parse().ok()?;
+    let threads: usize = it.next()?.parse().ok()?;
+    let n: usize = it.next()?.parse().ok()?;
+    if !(dim == 2 || dim == 3) || coord >= dim || threads == 0 || threads > 64 {
+        return None;
+    }
+    let coords: Vec<i64> = nums(it, n * dim)?;
+    if it.next().is_some() {
+        return None;
+    }
+    let keys: Vec<i64> = (0..n).map(|p| coords[p * dim + coord]).collect();
+    let distinct = pairwise_distinct(keys.clone());
+    ctx.count(if distinct { "axissort_distinct" } else { "axissort_ties" });
+    let res = if dim == 2 {
+        run_axissort::<2>(threads, coord, n, &coords)
+    } else {
+        run_axissort::<3>(threads, coord, n, &coords)
+    };
+    let mut verdicts: Vec<(&str, String)> = vec![];
+    let out = match res {
+        Caught::Ok(perm) => {
+            let mut seen = vec![false; n];
+            let mut is_perm = perm.len() == n;
+            for &i in &perm {
+                if i >= n || seen[i] {
+                    is_perm = false;
+                    break;
+                }
+                seen[i] = true;
+            }
+            if !is_perm {
+                verdicts.push(("axissort-not-permutation", format!("{:?}", perm)));
+            } else if perm.windows(2).any(|w| keys[w[0]] > keys[w[1]]) {
+                verdicts.push(("axissort-not-sorted", format!("{:?}", perm)));
+            }
+            if distinct {
+                tagged("ok perm", &perm)
+            } else {
+                "ok ties".to_string()
+            }
+        }
+        Caught::Panic(m) => {
+            verdicts.push(("panic", format!("{} [{}]", m, panic_sig(&m))));
+            format!("panic {}", m)
+        }
+        Caught::Hang => "hang".into(),
+    };
+    let idx = ctx.record(op.to_string(), out, n >= 2);
+    for (sig, what) in verdicts {
+        ctx.fail(idx, sig, what);
+    }
+    Some(())
+}
 
 pub fn run_op(ctx: &mut Ctx, op: &str) {
-    ctx.record(op.to_string(), "bad-op".into(), false);
+    let mut it = op.split_whitespace();
+    let r = match it.next() {
+        Some("mj") => op_mj(ctx, op, &mut it),
+        Some("split") => op_split(ctx, op, &mut it),
+        Some("scheme") => op_scheme(ctx, op, &mut it),
+        Some("splitmany") => op_splitmany(ctx, op, &mut it),
+        Some("axissort") => op_axissort(ctx, op, &mut it),
+        _ => None,
+    };
+    if r.is_none() {
+        ctx.record(op.to_string(), "bad-op".into(), false);
+    }
+}
+
+// ------------------------------------------------------------------ generator
+
+const THREADS: [usize; 3] = [1, 4, 16];
+
+fn gen_n(ctx: &mut Ctx) -> usize {
+    match ctx.rng.usize(20) {
+        0 => 1,
+        1 => 2,
+        2 => 3,
+        3..=9 => 4 + ctx.rng.usize(13),
+        10..=17 => 17 + ctx.rng.usize(64),
+        18 => 81 + ctx.rng.usize(120),
+        _ => 201 + ctx.rng.usize(200),
+    }
+}
+
+/// point-major coordinates; returns (coords, shape name)
+fn gen_coords(ctx: &mut Ctx, n: usize, dim: usize) -> (Vec<i64>, &'static str) {
+    let mut c = vec![0i64; n * dim];
+    let shape = match ctx.rng.usize(20) {
+        0..=12 => "distinct",
+        13..=14 => "grid",
+        15 => "equal",
+        16..=17 => "line",
+        _ => "cluster",
+    };
+    match shape {
+        "distinct" => {
+            for a in 0..dim {
+                let mut p: Vec<i64> = (0..n as i64).collect();
+                ctx.rng.shuffle(&mut p);
+                let scale = 1 + ctx.rng.range(0, 4);
+                let shift = ctx.rng.range(-1000, 1000);
+                let neg = ctx.rng.chance(1, 3);
+                for i in 0..n {
+                    let v = p[i] * scale + shift;
+                    c[i * dim + a] = if neg { -v } else { v };
+                }
+            }
+        }
+        "grid" => {
+            let g = 1 + ctx.rng.range(1, 6);
+            for x in c.iter_mut() {
+                *x = ctx.rng.range(0, g);
+            }
+        }
+        "equal" => {
+            let v = ctx.rng.range(-3, 3);
+            for x in c.iter_mut() {
+                *x = v;
+            }
+        }
+        "line" => {
+            // distinct along one axis, constant on the others
+            let a0 = ctx.rng.usize(dim);
+            let mut p: Vec<i64> = (0..n as i64).collect();
+            ctx.rng.shuffle(&mut p);
+            for i in 0..n {
+                for a in 0..dim {
+                    c[i * dim + a] = if a == a0 { p[i] } else { 7 };
+                }
+            }
+        }
+        _ => {
+            let k = 1 + ctx.rng.usize(4);
+            let centres: Vec<Vec<i64>> =
+                (0..k).map(|_| (0..dim).map(|_| ctx.rng.range(-100, 100)).collect()).collect();
+            for i in 0..n {
+                let ce = &centres[ctx.rng.usize(k)];
+                for a in 0..dim {
+                    c[i * dim + a] = ce[a] + ctx.rng.range(-4, 4);
+                }
+            }
+        }
+    }
+    (c, shape)
+}
+
+fn gen_weights(ctx: &mut Ctx, n: usize) -> (Vec<u64>, &'static str) {
+    let shape = match ctx.rng.usize(16) {
+        0..=2 => "ones",
+        3 => "uniform",
+        4..=6 => "small",
+        7..=8 => "wide",
+        9..=11 => "dominant",
+        12..=13 => "heavy_few",
+        _ => "geometric",
+    };
+    let mut w: Vec<u64> = match shape {
+        "ones" => vec![1; n],
+        "uniform" => vec![ctx.rng.range(2, 1000) as u64; n],
+        "small" => (0..n).map(|_| ctx.rng.range(1, 9) as u64).collect(),
+        "wide" => (0..n).map(|_| ctx.rng.range(1, 1_000_000) as u64).collect(),
+        "dominant" | "heavy_few" => (0..n).map(|_| ctx.rng.range(1, 5) as u64).collect(),
+        _ => (0..n).map(|i| 1u64 << (i % 30)).collect(),
+    };
+    if n > 0 {
+        match shape {
+            "dominant" => {
+                // one element at least as heavy as all the others together (the K4 pattern)
+                let s: u64 = w.iter().sum();
+                let k = ctx.rng.usize(n);
+                w[k] = s + ctx.rng.range(0, 20) as u64;
+            }
+            "heavy_few" => {
+                for _ in 0..1 + ctx.rng.usize(3) {
+                    let k = ctx.rng.usize(n);
+                    w[k] = ctx.rng.range(10, 200) as u64;
+                }
+            }
+            "geometric" => ctx.rng.shuffle(&mut w),
+            _ => {}
+        }
+    }
+    (w, shape)
+}
+
+fn fmt_mj(dim: usize, threads: usize, parts: usize, maxiter: usize, ws: &[u64], coords: &[i64]) -> String {
+    let mut s = format!("mj {} {} {} {} {}", dim, threads, parts, maxiter, ws.len());
+    for w in ws {
+        s.push(' ');
+        s.push_str(&w.to_string());
+    }
+    for c in coords {
+        s.push(' ');
+        s.push_str(&c.to_string());
+    }
+    s
+}
+
+fn fmt_split(threads: usize, den: u64, mods: &[u64], ws: &[u64], perm: &[usize]) -> String {
+    format!(
+        "split {} {} {} {} {} {} {} {}",
+        threads,
+        den,
+        mods.len(),
+        join(mods),
+        ws.len(),
+        join(ws),
+        perm.len(),
+        join(perm)
+    )
+    .split_whitespace()
+    .collect::<Vec<_>>()
+    .join(" ")
+}
+
+pub fn generate(ctx: &mut Ctx) {
+    // ---- exhaustive small sub-space: fixed pairwise-distinct layout, all weight vectors over {1,2,5}
+    let nmax = if ctx.quick() { 4 } else { 5 };
+    let ys = [2i64, 0, 4, 1, 3];
+    let alphabet = [1u64, 2, 5];
+    for n in 1..=nmax {
+        let coords: Vec<i64> = (0..n).flat_map(|i| [i as i64, ys[i]]).collect();
+        let mut digits = vec![0usize; n];
+        loop {
+            let ws: Vec<u64> = digits.iter().map(|&d| alphabet[d]).collect();
+            for parts in 1..=n {
+                for maxiter in 1..=2 {
+                    ctx.count("mj_exhaustive");
+                    let op = fmt_mj(2, 1, parts, maxiter, &ws, &coords);
+                    run_op(ctx, &op);
+                }
+            }
+            let mut i = 0;
+            while i < n {
+                if digits[i] + 1 < alphabet.len() {
+                    digits[i] += 1;
+                    break;
+                }
+                digits[i] = 0;
+                i += 1;
+            }
+            if i == n {
+                break;
+            }
+        }
+    }
+    ctx.notes.push(format!(
+        "exhaustive sub-space: n = 1..={} points on a fixed pairwise-distinct 2-D layout x all weight vectors over {:?} x parts 1..=n x max_iter 1..=2",
+        nmax, alphabet
+    ));
+
+    // ---- random mj cases inside the quantifier
+    let count = ctx.budget(2200, 18000);
+    for _ in 0..count {
+        let n = gen_n(ctx);
+        let dim = 2 + ctx.rng.usize(2);
+        let (coords, cs) = gen_coords(ctx, n, dim);
+        let (ws, wsn) = gen_weights(ctx, n);
+        let parts = match ctx.rng.usize(8) {
+            0 => 1,
+            1 => n,
+            2 => 1 + ctx.rng.usize(n.min(8)),
+            _ => 1 + ctx.rng.usize(n),
+        };
+        let maxiter = 1 + ctx.rng.usize(4);
+        let threads = *ctx.rng.pick(&THREADS);
+        ctx.count(&format!("mj_shape_coords_{}", cs));
+        ctx.count(&format!("mj_shape_weights_{}", wsn));
+        let op = fmt_mj(dim, threads, parts, maxiter, &ws, &coords);
+        run_op(ctx, &op);
+    }
+
+    // ---- outside the property's quantifier (inside C01's): parts > n, zero weights, n = 0, max_iter 5..6
+    let count = ctx.budget(300, 2500);
+    for _ in 0..count {
+        let kind = ctx.rng.usize(6);
+        let mut n = gen_n(ctx).min(120);
+        let dim = 2 + ctx.rng.usize(2);
+        if kind == 4 {
+            n = 0;
+        }
+        let (coords, _) = gen_coords(ctx, n, dim);
+        let (mut ws, _) = gen_weights(ctx, n);
+        let mut parts = 1 + ctx.rng.usize(n.max(1));
+        let mut maxiter = 1 + ctx.rng.usize(4);
+        match kind {
+            0 => {
+                parts = n + 1 + ctx.rng.usize(n + 3);
+                ctx.count("mj_out_parts_gt_n");
+            }
+            1 => {
+                for w in ws.iter_mut() {
+                    if ctx.rng.chance(1, 3) {
+                        *w = 0;
+                    }
+                }
+                ctx.count("mj_out_random_zeros");
+            }
+            2 => {
+                // a zero-weight run at the start / middle / end of the order along axis 0
+                let mut order: Vec<usize> = (0..n).collect();
+                order.sort_by_key(|&i| coords[i * dim]);
+                let len = 1 + ctx.rng.usize(n.max(1));
+                let start = match ctx.rng.usize(3) {
+                    0 => 0,
+                    1 => n.saturating_sub(len),
+                    _ => ctx.rng.usize(n.saturating_sub(len) + 1),
+                };
+                for &i in order.iter().skip(start).take(len) {
+                    ws[i] = 0;
+                }
+                ctx.count("mj_out_zero_slab");
+            }
+            3 => {
+                for w in ws.iter_mut() {
+                    *w = 0;
+                }
+                ctx.count("mj_out_all_zero");
+            }
+            4 => {
+                parts = 1 + ctx.rng.usize(4);
+                ctx.count("mj_out_n0");
+            }
+            _ => {
+                maxiter = 5 + ctx.rng.usize(2);
+                ctx.count("mj_out_maxiter_5_6");
+            }
+        }
+        let threads = *ctx.rng.pick(&THREADS);
+        let op = fmt_mj(dim, threads, parts, maxiter, &ws, &coords);
+        run_op(ctx, &op);
+    }
+
+    // ---- direct: compute_split_positions
+    let count = ctx.budget(600, 5000);
+    for _ in 0..count {
+        let big = ctx.rng.chance(1, 10);
+        let np = match ctx.rng.usize(10) {
+            0 => 0,
+            1 => 1,
+            2 => 2,
+            _ => 3 + ctx.rng.usize(if big { 300 } else { 40 }),
+        };
+        let extra = ctx.rng.usize(4);
+        let nw = np + extra;
+        let (mut ws, _) = gen_weights(ctx, nw);
+        let mut perm: Vec<usize> = (0..nw).collect();
+        ctx.rng.shuffle(&mut perm);
+        perm.truncate(np);
+        let k = 1 + ctx.rng.usize(8);
+        let shape = ctx.rng.usize(8);
+        let (mods, den): (Vec<u64>, u64) = match shape {
+            0..=2 => {
+                // like the scheme: `rem` fat parts of q+1, the rest q
+                let q = 1 + ctx.rng.usize(5) as u64;
+                let rem = ctx.rng.usize(k);
+                let m: Vec<u64> = (0..k).map(|i| if i < rem { q + 1 } else { q }).collect();
+                let d = m.iter().sum();
+                (m, d)
+            }
+            3 => (vec![1; k], k as u64),
+            4 => {
+                // do not sum to den (thresholds beyond the total → the slab's end)
+                let m: Vec<u64> = (0..k).map(|_| ctx.rng.range(0, 6) as u64).collect();
+                (m, 1 + ctx.rng.usize(8) as u64)
+            }
+            5 => {
+                // uniform weights, thresholds that hit prefix sums exactly
+                let w = ctx.rng.range(1, 12) as u64;
+                for x in ws.iter_mut() {
+                    *x = w;
+                }
+                (vec![1; k], k as u64)
+            }
+            6 => {
+                // zero-weight runs
+                let a = ctx.rng.usize(nw + 1);
+                let b = ctx.rng.usize(nw + 1);
+                for x in ws.iter_mut().take(a.max(b)).skip(a.min(b)) {
+                    *x = 0;
+                }
+                (vec![1; k], k as u64)
+            }
+            _ => {
+                let m: Vec<u64> = (0..k).map(|_| ctx.rng.range(0, 9) as u64).collect();
+                let d = m.iter().sum::<u64>().max(1);
+                (m, d)
+            }
+        };
+        ctx.count(&format!("split_shape_{}", shape));
+        let threads = *ctx.rng.pick(&THREADS);
+        let op = fmt_split(threads, den, &mods, &ws, &perm);
+        run_op(ctx, &op);
+    }
+    // malformed: no modifier, permutation entry out of range
+    for _ in 0..ctx.budget(20, 100) {
+        let nw = 1 + ctx.rng.usize(6);
+        let ws: Vec<u64> = (0..nw).map(|_| ctx.rng.range(1, 9) as u64).collect();
+        if ctx.rng.chance(1, 2) {
+            let perm: Vec<usize> = (0..nw).collect();
+            run_op(ctx, &fmt_split(1, 1, &[], &ws, &perm));
+        } else {
+            let mut perm: Vec<usize> = (0..nw).collect();
+            let k = ctx.rng.usize(nw);
+            perm[k] = nw + ctx.rng.usize(3);
+            run_op(ctx, &fmt_split(1, 2, &[1, 1], &ws, &perm));
+        }
+    }
+
+    // ---- direct: partition_scheme
+    let (pmax, mmax) = if ctx.quick() { (150usize, 4usize) } else { (400, 6) };
+    for parts in 1..=pmax {
+        for maxiter in 1..=mmax {
+            run_op(ctx, &format!("scheme {} {}", parts, maxiter));
+        }
+    }
+    for _ in 0..ctx.budget(40, 400) {
+        let parts = 151 + ctx.rng.usize(4850);
+        let maxiter = 2 + ctx.rng.usize(3);
+        run_op(ctx, &format!("scheme {} {}", parts, maxiter));
+    }
+    for m in 0..=4 {
+        run_op(ctx, &format!("scheme 0 {}", m));
+    }
+    run_op(ctx, "scheme 1 0");
+    ctx.notes.push(format!(
+        "partition_scheme compared for every part_count 1..={} x max_iter 1..={} plus random part counts up to 5000",
+        pmax, mmax
+    ));
+
+    // ---- direct: split_at_mut_many
+    for _ in 0..ctx.budget(300, 3000) {
+        let len = ctx.rng.usize(40);
+        let k = ctx.rng.usize(7);
+        let mut pos: Vec<usize> = (0..k).map(|_| ctx.rng.usize(len + 1)).collect();
+        if ctx.rng.chance(5, 6) {
+            pos.sort_unstable();
+        } else if ctx.rng.chance(1, 2) && k > 0 {
+            let j = ctx.rng.usize(k);
+            pos[j] = len + 1 + ctx.rng.usize(3);
+        }
+        run_op(ctx, &format!("splitmany {} {} {}", len, k, join(&pos)).trim_end().to_string());
+    }
+
+    // ---- direct: axis_sort
+    for _ in 0..ctx.budget(200, 2000) {
+        let n = gen_n(ctx);
+        let dim = 2 + ctx.rng.usize(2);
+        let (coords, _) = gen_coords(ctx, n, dim);
+        let coord = ctx.rng.usize(dim);
+        let threads = *ctx.rng.pick(&THREADS);
+        run_op(ctx, &format!("axissort {} {} {} {} {}", dim, coord, threads, n, join(&coords)).trim_end().to_string());
+    }
 }
